@@ -328,13 +328,56 @@ func c07(args []string) {
 			stream = append(stream, gen.Garbage(rng, rng.Intn(12))...)
 		}
 	}
-	ev := c07Event{Fam: "stream", Len: len(stream), Stage: "HandleMessages", Fill: "mixed", TsKind: "any"}
+	c07Stream(w, stream, slog.LevelDebug, "stream")
+	c07Stream(w, stream, slog.LevelInfo, "stream")
+
+	// streams that END inside a frame, at every byte (the tail is displayed as other data), and every short
+	// piece that looks like the beginning of a frame - at both log levels
+	for k, f := range [][]byte{gen.Frame(rng, 1005, 19, 0), gen.Frame(rng, 1077, 40, 0), gen.Frame(rng, 1230, 4, 0), gen.Frame(rng, 1006, 21, 2)} {
+		pre := [][]byte{{}, gen.Frame(rng, 1230, 6, 0), gen.Junk(rng, 3, 1)}[k%3]
+		for cut := 0; cut <= len(f); cut++ {
+			if !thorough && cut > 12 && cut < len(f)-6 && (cut+k+int(tr.Seed()))%4 != 0 {
+				continue
+			}
+			for _, lv := range []slog.Level{slog.LevelDebug, slog.LevelInfo} {
+				c07Stream(w, gen.Cat(pre, f[:cut]), lv, "tail")
+			}
+		}
+	}
+	for _, b1 := range []byte{0x00, 0x01, 0x03, 0x04, 0xff} {
+		for _, b2 := range []byte{0x00, 0x01, 0x13, 0xff} {
+			for n := 1; n <= 6; n++ {
+				piece := []byte{0xd3, b1, b2, 0x3e, 0xd0, 0x00}[:n]
+				for _, lv := range []slog.Level{slog.LevelDebug, slog.LevelInfo} {
+					c07Stream(w, piece, lv, "start-of-frame piece")
+					// and handed to GetMessage / String directly
+					pc := append([]byte{}, piece...)
+					ev := c07Event{Fam: "piece", Len: n, Stage: "GetMessage+String", Fill: "leader", TsKind: "any"}
+					ev.Panic = tr.Recover(func() {
+						m, _ := handler.New(time.Date(2023, 5, 10, 12, 0, 0, 0, time.UTC), lv).GetMessage(pc)
+						if m != nil {
+							_ = m.String()
+						}
+						nm := handler.NewNonRTCM(pc)
+						nm.LogLevel = lv
+						_ = nm.String()
+					})
+					w.Emit(ev)
+				}
+			}
+		}
+	}
+}
+
+// c07Stream: one stream through HandleMessages at the given log level, every message displayed
+func c07Stream(w *tr.Writer, stream []byte, lv slog.Level, fam string) {
+	ev := c07Event{Fam: fam, Len: len(stream), Stage: "HandleMessages", Fill: "mixed", TsKind: "any"}
 	res := make(chan string, 1)
 	go func() {
 		res <- tr.Recover(func() {
 			chIn := make(chan byte, 64)
 			chOut := make(chan handler.Message, 4)
-			h := handler.New(time.Date(2023, 5, 10, 12, 0, 0, 0, time.UTC), slog.LevelDebug)
+			h := handler.New(time.Date(2023, 5, 10, 12, 0, 0, 0, time.UTC), lv)
 			go func() {
 				for _, b := range stream {
 					chIn <- b
